@@ -33,7 +33,7 @@ func (d TaskDef) Equals(otherDef TaskDef) bool {
 		return false
 	}
 	for k, v := range d.Env {
-		if otherDef.Env[k] != v {
+		if otherV, exists := otherDef.Env[k]; !exists || otherV != v {
 			return false
 		}
 	}
@@ -121,7 +121,7 @@ func (d PipelineDef) Equals(otherDef PipelineDef) bool {
 		return false
 	}
 	for k, v := range d.Env {
-		if otherDef.Env[k] != v {
+		if otherV, exists := otherDef.Env[k]; !exists || otherV != v {
 			return false
 		}
 	}
